@@ -45,7 +45,7 @@ def histories(ctx):
     rng = ctx.rng
     hs = []
     for i in range(ctx.scale(70, 800)):
-        spec = engine.gen_spec(rng, nt=(2, 7), after_p=0.2, after_needs_prods=True, link_p=0.3, dirprod_p=0.3, hashed_p=0.25, bag_p=0.3, subdir_p=0.35, pygroup_p=0.4)
+        spec = engine.gen_spec(rng, nt=(2, 7), after_p=0.2, after_needs_prods=True, link_p=0.3, dirprod_p=0.3, hashed_p=0.25, bag_p=0.3, subdir_p=0.35, pygroup_p=0.25)
         h = histgen.random_history(rng, spec, rng.randint(4, 10), EDITS, CFGS, final_build={})
         h["steps"] = [["build", {}]] + h["steps"] + [["build", {}]]
         hs.append(h)
